@@ -296,6 +296,9 @@ def run(F, rep, tier, allfacts):
                             got.add("call:" + m.group(1))
                 rep.check(want.get(nm, set()) <= got and not (got - want.get(nm, set()) - {"bin:Shr"}), "TAB-narrowint", "arm:" + nm, "%s:%s" % (f["file"], f["line"]),
                           "MathOp::%s must use %s; its arm uses %s" % (nm, sorted(want.get(nm, [])), sorted(got)))
+        casts = [describe(f, rv[2], depth=8) for i, j, p, rv, line in assignments(f) if rv[0] == "cast" and rv[3] == "u32"]
+        rep.check(bool(casts) and all(c == "call:truncate(arg:rhs,arg:args.width)" for c in casts), "TAB-narrowint", "u32-amount-from-truncated-rhs", "%s:%s" % (f["file"], f["line"]),
+                  "the u32 exponent / shift amount must be derived from the width-truncated right operand; found casts of %s" % casts)
         tr = [[describe(f, a, depth=6) for a in args] for i, c, args, *_ in calls(f) if callee_matches(c, r"narrowint::truncate$")]
         rep.check(["arg:lhs", "arg:args.width"] in tr and ["arg:rhs", "arg:args.width"] in tr, "TAB-narrowint", "operands-truncated-first", "%s:%s" % (f["file"], f["line"]),
                   "both operands must be truncated to the operation width; truncate calls %s" % tr)
